@@ -2493,6 +2493,10 @@ public:
     // Back the string bytes into 32-bit words.
     uint32_t packedWord = 0;
     packedWord |= value.size() & 0xFF;
+    if (value.empty()) {
+      // An empty string still occupies one word holding its length.
+      genData(packedWord);
+    }
     for (size_t strByteIndex = 0; strByteIndex < value.size(); strByteIndex++) {
       auto bytePos = (strByteIndex + 1) % 4;
       packedWord |= value[strByteIndex] << (bytePos * 8);
